@@ -153,8 +153,10 @@ theorem cacheOpen_correct (shdr sihdr : Bytes) (dir : Dir) (src : DataSess) (xs 
       = .ok (4 + (cacheUserHeader B).length, cacheUserHeader B) := by
     rw [hdata]; exact outerHdr_open _ _ hH
   have hahead : ¬ (k * B ≥ xs.length + B) := by omega
+  have hnotgt : ¬ (k * B > xs.length) := by omega
   unfold cacheOpen
-  simp only [hfo, hopen, hclen, hslen, hahead, if_false, Bool.false_eq_true, decide_false]
+  simp only [hfo, hopen, hclen, hslen, hahead, hnotgt, if_false, Bool.false_eq_true, decide_false, Bool.false_and,
+    Bool.or_self]
   by_cases hdone : k * B ≥ xs.length
   · -- nothing to replay
     have hkeq : k * B = xs.length := by omega
